@@ -254,6 +254,12 @@ fn ref_allowed(pats: &[RefPat], u: &UriParts) -> RefVerdict {
             continue;
         }
         let c = ref_compare(p, u);
+        if c.host == "empty-label-for-wildcard" && c.port == "ok" && c.scheme == "ok" {
+            // `.a.org` against `*.a.org`: the wildcard position is filled by an EMPTY label.  The doc says a
+            // wildcard needs a sub-domain; whether an empty label counts is not stated, and such a name
+            // cannot be resolved by any transport: reported as a differential, not judged.
+            undefined = undefined.or(Some("empty-label-in-wildcard-position"));
+        }
         if cmp_ok(&c) {
             return RefVerdict { allowed: true, best: Some((p.shape.clone(), c)), undefined: None };
         }
@@ -302,14 +308,14 @@ fn gen_pattern(rng: &mut Rng) -> String {
     let d = *rng.pick(DOMAINS);
     let mut p = String::new();
     if rng.chance(1, 3) {
-        p.push_str(rng.pick(&["https://", "http://", "HTTPS://", "Http://"]));
+        p.push_str(*rng.pick(&["https://", "http://", "HTTPS://", "Http://"]));
     }
     if rng.chance(1, 3) && !d.starts_with('[') {
         p.push_str("*.");
     }
     p.push_str(&rand_case(rng, d));
     if rng.chance(1, 3) {
-        p.push_str(rng.pick(&[":443", ":80", ":8080", ":8443", ":65535", ":0"]));
+        p.push_str(*rng.pick(&[":443", ":80", ":8080", ":8443", ":65535", ":0"]));
     }
     p
 }
